@@ -68,7 +68,7 @@ def gen_doc(g, w, rich):
         return args
     b.formal_args = formal_args
     d, scopes = b.random_document(n_records=g.rng.randint(1, 7))
-    return d
+    return d, b
 
 
 def read_only_use(g, doc):
@@ -107,8 +107,18 @@ def run(ctx):
         for _ in range(n):
             rich = g.chance(0.6)
             w = World()
-            d = gen_doc(g, w, rich)
+            d, b = gen_doc(g, w, rich)
             doc = w.conts[d]
+            if g.chance(0.25):
+                # second chapter: the document is printed once, changed in place, and only then printed for the record
+                try:
+                    doc.get_provn()
+                except Exception:  # noqa
+                    pass
+                if not rich:
+                    w.provn(d)
+                if b.mutate_in_place([d], extend_records=rich):
+                    ctx.count("changed-after-first-export")
             if not rich:
                 w.provn(d)           # exact text correspondence (model printer vs real printer)
                 worlds.append(w)
